@@ -124,11 +124,10 @@ def main():
 
     rc = 0
     replay_path = None
-    if harness_errors:
-        r = harness_errors[0]
-        print(f"HARNESS-ERROR engine={r.get('engine')} run={r['k']}:\n{r['harness_error']}")
-        rc = 2
-    if viol_runs and rc == 0:
+    # A violation that reproduces from its replay file in a fresh interpreter stands on its own: it is reported even if
+    # other runs of the batch ended in a harness error (a worker killed by the watchdog, say).  Harness errors decide the
+    # exit code only when no violation was confirmed -- they are never success.
+    if viol_runs:
         # report the first violating run whose violation reproduces from its replay file in a fresh interpreter
         # (up to four candidates are tried before the harness itself is blamed)
         attempts = []
@@ -156,6 +155,12 @@ def main():
         if rc == 0:
             path, code, out = attempts[0]
             print(f"HARNESS-ERROR replay of {path} in a fresh process did not reproduce (exit {code}):\n{out}")
+            rc = 2
+    if harness_errors:
+        r = harness_errors[0]
+        print(f"HARNESS-ERROR engine={r.get('engine')} run={r['k']}{' (in addition to the violation above)' if rc == 1 else ''}:"
+              f"\n{r['harness_error']}")
+        if rc == 0:
             rc = 2
     seen_known = set()
     for k, v, e in known_hits:
